@@ -8,6 +8,9 @@ package reader
 //@   property C10, C02
 //@   ensures nonneg: !err ==> n >= 0
 
-// Reference graphs in a PDF are cyclic (/Parent <-> /Kids): the deep walk needs a recursion measure.
-//@ func (*Reader) ResolveDeep results (out, err)
+// Reference graphs in a PDF are cyclic (/Parent <-> /Kids): the deep walk is bounded by a nesting-depth measure.
+//@ func (*Reader) resolveDeep results (out, err)
 //@   property C02
+//@   decreases 101 - depth
+//@   loop 0:
+//@     invariant len(result) == len(v)
